@@ -18,6 +18,7 @@ int w_vm_run_sqf(void* p, const char* code, size_t n, int preprocess);
 size_t w_val_tostring(const sqf::runtime::value* v, char* buf, size_t cap);
 void w_vm_set_cfg(void* p, int what, long val);
 int w_vm_execute(void* p, int action);
+long w_vm_prettify(void* p, const char* text, size_t n, char* out, size_t cap);
 int w_vm_state(void* p);
 static std::map<int, float> g_f; static std::map<int, int> g_b;
 void verif_log(void*, int level, size_t code, const char* msg, size_t len) { printf("LOG %d %zu %.*s\n", level, code, (int)len, msg); }
@@ -79,6 +80,7 @@ int main(int argc, char** argv)
     void* vm = w_vm_new(1023, 0, 1);
     if (op == "compile") printf("RESULT %d\n", w_vm_compile(vm, buf, text.size()) ? 1 : 0);
     else if (op == "config") printf("RESULT %d\n", w_vm_parse_config(vm, buf, text.size()));
+    else if (op == "pretty") { static char out[65536]; long n = w_vm_prettify(vm, buf, text.size(), out, sizeof(out)); printf("RESULT %ld\n", n); printf("OUTHEX "); for (long i = 0; i < n && i < (long)sizeof(out); i++) printf("%02x", (unsigned char)out[i]); printf("\n"); }
     else if (op == "preprocess") { static char out[65536]; long n = w_vm_preprocess(vm, buf, text.size(), out, sizeof(out)); printf("RESULT %ld\n", n); if (n >= 0) printf("OUT %.*s\n", (int)n, out); }
     return 0;
 }
